@@ -23,7 +23,10 @@ pub open spec fn ins_post(m: TM, used0: Set<u32>, cur: NodeId, t0: TmpV, t1: Tmp
     // C15: a bucket written by this call that exceeds the capacity is queued for splitting under ITS tree id; only buckets are queued
     &&& large0.subset_of(large1)
     &&& (forall|x: u32| #![trigger large1.contains(x)] large1.contains(x) && !large0.contains(x) ==> s.union(fresh).contains(x) && m1.contains_key(x) && m1[x] is Desc)
-    &&& (new.mode == NodeMode::Tree && t1.puts.contains_key(new.item) && over_cap(m1[new.item], cap) ==> large1.contains(new.item))
+    &&& (forall|x: u32| #![trigger large1.contains(x)] #![trigger t1.puts.contains_key(x)] s.union(fresh).contains(x) && t1.puts.contains_key(x) && over_cap(m1[x], cap) ==> large1.contains(x))
+    // nothing is dropped: the old nodes are all still part of the tree, and a bucket stays a bucket
+    &&& s.subset_of(tnodes(m1, new)) && fresh.subset_of(tnodes(m1, new))
+    &&& (forall|x: u32| #![trigger s.contains(x)] s.contains(x) && m[x] is Desc ==> m1[x] is Desc)
     // C04: a rewritten split keeps its plane and each side keeps its items; new items go to the side `side()` chose
     &&& (cur.mode == NodeMode::Tree && m[cur.item] is Split ==> ({
             let l = m[cur.item]->Split_0; let r = m[cur.item]->Split_1; let nrm = m[cur.item]->Split_2;
